@@ -22,8 +22,10 @@ Open Scope Z_scope.
    relations of "__root__" (and, hereditarily – see [Conf] – every branch conforms
    to the relations of its node's type): per relation, in dict order, a group of
    [n] children with [count_ok :count n]; the i-th child of the group has the
-   relation's type, its dict is aligned with merge("*", type, relation spec) minus
-   the ":"-keys popped by the code, fixed values with {idx} -> i and {hier_idx} ->
+   relation's type, its data object ([data_ok]) has the class named by the merged
+   ":factory" (DictWrapper by default) and a dict that is – before the merged ":callback"
+   is applied – aligned with merge("*", type, relation spec) minus the ":"-keys popped by
+   the code, fixed values with {idx} -> i and {hier_idx} ->
    dotted (path ++ [i]), random values allowed by [rnd_may], absent only if the
    randomizer may answer None; children again conform, leaf types have none. *)
 Theorem C20_conforms : forall (Df : sdef) (rk : text -> nat) (typed : bool) (fuel : nat) (s : stream),
@@ -71,7 +73,7 @@ Theorem C20_every_node : forall (Df : sdef) ptype path f q u,
   exists path' cs e i,
     lookup q (d_rels Df) = Some cs /\ In e cs /\ (1 <= i)%nat /\
     g_type u = fst e /\
-    attrs_ok i (path' ++ [i]) (strip (mspec Df e)) (g_attrs u) /\
+    data_ok (mspec Df e) i (path' ++ [i]) u /\
     (mem (fst e) (d_rels Df) = true -> Conf Df (fst e) (path' ++ [i]) (g_ch u)) /\
     (mem (fst e) (d_rels Df) = false -> g_ch u = []).
 Proof.
@@ -91,7 +93,7 @@ Theorem C20_relation_group : forall (Df : sdef) ptype path f cs e,
   count_ok (lookup K_count (mspec Df e)) (length g) /\
   forall k t, nth_error g k = Some t ->
     g_type t = fst e /\
-    attrs_ok (S k) (path ++ [S k]) (strip (mspec Df e)) (g_attrs t) /\
+    data_ok (mspec Df e) (S k) (path ++ [S k]) t /\
     (mem (fst e) (d_rels Df) = true -> Conf Df (fst e) (path ++ [S k]) (g_ch t)) /\
     (mem (fst e) (d_rels Df) = false -> g_ch t = []).
 Proof. exact relation_group. Qed.
@@ -109,6 +111,25 @@ Proof.
   refine (conj _ (conj _ (conj count_ok_range count_ok_range_any))); intros; cbn [count_ok]; tauto.
 Qed.
 Print Assumptions C20_child_count.
+
+(* the data object of a node: class from ":factory"; the dict is the aligned dict a0
+   after the callback (none: a0 itself; set k z: a0 with k := z; del k: a0 without k) *)
+Theorem C20_data_object : forall m i path t, data_ok m i path t ->
+  g_fac t = fac_of (lookup K_factory m) /\
+  exists a0, attrs_ok i path (strip m) a0 /\
+    (cb_of (lookup K_callback m) = CbNone -> g_attrs t = a0) /\
+    forall k, lookup k (g_attrs t) =
+      match cb_of (lookup K_callback m) with
+      | CbNone => lookup k a0
+      | CbSet k' z => if text_eqb k k' then Some (VInt z) else lookup k a0
+      | CbDel k' => if text_eqb k' k then None else lookup k a0
+      end.
+Proof.
+  intros m i path t [Hf [a0 [Ha Hg]]]. split; [exact Hf|]. exists a0. split; [exact Ha|]. split.
+  - intros E. rewrite Hg, E. reflexivity.
+  - intros k. rewrite Hg. apply lookup_apply_cb.
+Qed.
+Print Assumptions C20_data_object.
 
 (* attributes, key by key (the merged spec is a dict: distinct keys) *)
 Theorem C20_attributes : forall i path m a, attrs_ok i path m a -> NoDup (map fst m) -> forall k,
@@ -192,6 +213,14 @@ Theorem C20_D39_cyclic_never_stabilises :
 Proof. exact (conj cyclic_unbounded cyclic_no_rank). Qed.
 Print Assumptions C20_D39_cyclic_never_stabilises.
 
+(* the asserts of the Randomizer constructors (decided by [ctor_ok], compared with the
+   implementation on generated well- and ill-formed constructor arguments) give a
+   probability in [0,1] and the well-formedness the range theorems need *)
+Theorem C20_constructors : forall r, ctor_ok r = true ->
+  (0 <= prob_of r)%Q /\ (prob_of r <= 1)%Q /\ (match r with RSample _ _ _ => True | _ => rnd_wf r end).
+Proof. exact ctor_ok_wf. Qed.
+Print Assumptions C20_constructors.
+
 (* the decidable domain checks evaluated by the correspondence on every case imply
    the hypotheses of C20_conforms *)
 Theorem C20_domain_checks : forall Df fuel rk, in_domain Df fuel rk = true ->
@@ -246,7 +275,7 @@ Definition CAUSE := t_ [99;97;117;115;101]. Definition EFF := t_ [101;102;102].
 Definition TITLE := t_ [116;105;116;108;101]. Definition ICON := t_ [105;99;111;110].
 Definition Dex : sdef :=
   SD (Some [102;109;101;97])
-     [ (K_star, [(K_factory, SV VNone)]); (FN, [(ICON, SV (VStr [Lit [103]]))]); (CAUSE, [(ICON, SV (VStr [Lit [116]]))]) ]
+     [ (K_star, [(K_factory, SV (VFac 0))]); (FN, [(ICON, SV (VStr [Lit [103]]))]); (CAUSE, [(ICON, SV (VStr [Lit [116]]))]) ]
      [ (K_root, [(FN, [(K_count, SV (VInt 3)); (TITLE, SV (VStr [Lit [70; 32]; HierIdx]));
                         (t_ [100], SR (RDate 737425 365 true (mkQ 63 64)));
                         (t_ [118], SR (RValue (VStr [Lit [102]]) (mkQ 1 2)));
@@ -280,7 +309,7 @@ Proof. vm_compute. repeat split. Qed.
 
 (* NodeAt reaches nodes below the top level *)
 Example C20_nodeat_nonvacuous :
-  let c := G EFF [] [] in let b := G FAIL [] [c] in let a := G FN [] [b] in
+  let c := G EFF 0 [] [] in let b := G FAIL 0 [] [c] in let a := G FN 0 [] [b] in
   NodeAt K_root [a] FAIL c.
 Proof.
   cbv zeta. eapply NA_below; [left; reflexivity|]. eapply NA_below; [left; reflexivity|].
